@@ -106,6 +106,9 @@ func c06Scenarios(tier string) []*Scenario {
 		add(c, RPC{Kind: "ss", Client: []string{"S0", "C", "R*"}, Handler: []string{"r", "s0", "s1", "ret:ok"}})
 		add(c, RPC{Kind: "bd", Client: []string{"S0", "S1", "C"}, Client2: []string{"R*"}, Handler: []string{"r", "s0", "r", "s1", "r*", "ret:ok"}})
 		add(c, RPC{Kind: "bd", Client: []string{"S0", "S1", "C", "R*"}, Handler: []string{"w", "ret:ctx"}})
+		// the empty message (zero bytes when encoded) is a message like any other
+		add(c, RPC{Kind: "cs", Client: []string{"E0", "S1", "C", "R*"}, Handler: []string{"r*", "s0", "ret:ok"}})
+		add(c, RPC{Kind: "bd", Client: []string{"E0", "E1", "C"}, Client2: []string{"R*"}, Handler: []string{"r", "s0", "r*", "ret:ok"}})
 	}
 	if tier == "thorough" {
 		for _, c := range []string{"", "cancel"} {
